@@ -66,12 +66,27 @@ pub struct Prep<F> {
     pub eps: f64,
     pub tiny: f64,
     pub f32_: bool,
-    pub scale_exp: i8,
+    pub xf_: Xform,
 }
 
-pub fn conv_rows<F: Float>(rows: &[Vec<f64>], scale_exp: i8) -> Vec<Vec<F>> {
-    let s = 2f64.powi(scale_exp as i32);
-    rows.iter().map(|r| r.iter().map(|v| F::cast(v * s)).collect()).collect()
+/// offset + power-of-two scaling applied to every generated coordinate
+#[derive(Clone, Debug)]
+pub struct Xform {
+    pub scale_exp: i8,
+    pub offset: Vec<f64>,
+}
+
+impl Xform {
+    pub fn of(d: &Data) -> Self {
+        Xform { scale_exp: d.scale_exp, offset: d.offset.clone() }
+    }
+}
+
+pub fn conv_rows<F: Float>(rows: &[Vec<f64>], x: &Xform) -> Vec<Vec<F>> {
+    let s = 2f64.powi(x.scale_exp as i32);
+    rows.iter()
+        .map(|r| r.iter().enumerate().map(|(j, v)| F::cast((v + x.offset.get(j).copied().unwrap_or(0.0)) * s)).collect())
+        .collect()
 }
 
 pub fn to_arr<F: Float>(rows: &[Vec<F>], p: usize) -> Array2<F> {
@@ -83,7 +98,8 @@ pub fn from_arr<F: Float>(a: &Array2<F>) -> Vec<Vec<F>> {
 }
 
 pub fn prep<F: Float>(d: &Data) -> Prep<F> {
-    let xf: Vec<Vec<F>> = conv_rows(&d.rows, d.scale_exp);
+    let xf_ = Xform::of(d);
+    let xf: Vec<Vec<F>> = conv_rows(&d.rows, &xf_);
     let p = d.rows.first().map(|r| r.len()).unwrap_or(0);
     Prep {
         arr: to_arr(&xf, p),
@@ -94,7 +110,7 @@ pub fn prep<F: Float>(d: &Data) -> Prep<F> {
         eps: F::epsilon().to_f64().unwrap_or(f64::NAN),
         tiny: F::min_positive_value().to_f64().unwrap_or(f64::NAN),
         f32_: d.f32_,
-        scale_exp: d.scale_exp,
+        xf_,
     }
 }
 
@@ -106,12 +122,12 @@ pub struct Fitted<F: Float, D: Distance<F>> {
     pub inertia: f64,
 }
 
-pub fn linfa_init<F: Float>(init: &Init, scale_exp: i8, p: usize) -> KMeansInit<F> {
+pub fn linfa_init<F: Float>(init: &Init, x: &Xform, p: usize) -> KMeansInit<F> {
     match init {
         Init::Random => KMeansInit::Random,
         Init::PlusPlus => KMeansInit::KMeansPlusPlus,
         Init::Para => KMeansInit::KMeansPara,
-        Init::Precomputed(c0) => KMeansInit::Precomputed(to_arr(&conv_rows::<F>(c0, scale_exp), p)),
+        Init::Precomputed(c0) => KMeansInit::Precomputed(to_arr(&conv_rows::<F>(c0, x), p)),
     }
 }
 
@@ -137,7 +153,7 @@ pub fn fit<F: Float, D: Distance<F>, R: rand::Rng + Clone>(
     n_runs: usize,
 ) -> Option<Fitted<F, D>> {
     limit_pool();
-    let li = linfa_init::<F>(init, pr.scale_exp, pr.p);
+    let li = linfa_init::<F>(init, &pr.xf_, pr.p);
     let ds = DatasetBase::from(pr.arr.clone());
     let r = obs.call("fit", || {
         KMeans::params_with(k, rng, dist)
@@ -206,8 +222,8 @@ pub struct AssignStats {
 }
 
 /// Obligation (2): predict (batch and single-row form) returns an index at minimal reduced distance
-/// (independent scan, ± float tolerance), the lowest such index on an exact tie; transform returns
-/// the minimal reduced distance.
+/// (independent scan, ± float tolerance; on a tie ANY minimal index is accepted — the statement does
+/// not fix the tie-break); transform returns the minimal reduced distance.
 pub fn check_assignment<F: Float, D: Distance<F>>(
     obs: &mut Obs,
     pr: &Prep<F>,
@@ -258,11 +274,6 @@ pub fn check_assignment<F: Float, D: Distance<F>>(
                         nr.first,
                         nr.rmin
                     ),
-                );
-            } else if nr.exact_tie && got != nr.first {
-                obs.fail(
-                    "predict:tie-not-lowest-index",
-                    format!("{what} row {i} ({form}) = {:?} is exactly equidistant from centroids {:?}; got {got}, the scan order gives {}", p64[i], nr.near, nr.first),
                 );
             }
         };
